@@ -334,6 +334,27 @@ func c13R5(w *World, r *Report) {
 		})
 		r.check(deferred, rule, "Merge:defer-unlock", w.instrPos(in), "Unlock deferred after acquiring", "mergeMu is not released by a defer: a panic or early return wedges every later Merge")
 	}
+	// the candidate listing belongs to the exclusive section: a listing taken
+	// before the lock can be stale by the time the lock is acquired (another
+	// merge has consumed those sources), and merging from it commits a second
+	// output for the same rows
+	nList := 0
+	for _, name := range []string{"BloomSearchEngine.Merge", "BloomSearchEngine.merge"} {
+		g := w.fn(name)
+		if g == nil {
+			continue
+		}
+		for _, in := range w.callSitesIn(g, "MetaStore.GetMaybeFilesForQuery") {
+			nList++
+			if g != fn {
+				continue // inside merge: under the lock by the obligation above
+			}
+			r.check(heldAny(fl.Before(in), ".mergeMu", true), rule, "Merge:listing-under-lock", w.instrPos(in), "candidates listed with mergeMu held", "the merge lists its candidate files before taking mergeMu: a Merge that listed while another was in flight merges sources that no longer exist as such — their rows end up in two outputs")
+		}
+	}
+	if nList == 0 {
+		r.undecided(rule, "Merge:listing", w.pos(fn.Pos()), "the candidate listing (MetaStore.GetMaybeFilesForQuery) was not found in Merge/merge")
+	}
 	n := 0
 	for _, ret := range fl.Returns() {
 		f := fl.Before(ret)
